@@ -134,7 +134,8 @@ def run_fixed(driver, rng, spec, ops):
     archive = au.make_archive(spec)
     table, pool = {}, []
     mops, probes = [], []
-    for op in ops:
+    for step_no, op in enumerate(ops):
+        archive = au.relay(archive, spec, step_no)     # a deep copy / pickle round trip continues exactly like the original
         if op[0] == "add":
             for c in op[1]:
                 table[c[0]] = c
@@ -233,7 +234,8 @@ def run_sliding(driver, rng, spec, ops):
 
     def ment(c):
         return [[au.F(dtype(x)) for x in c[2]], au.F(dtype(c[1])), c[0]]
-    for op in ops:
+    for step_no, op in enumerate(ops):
+        archive = au.relay(archive, spec, step_no)     # a deep copy / pickle round trip continues exactly like the original
         if op[0] == "add":
             for c in op[1]:
                 table[c[0]] = c
